@@ -271,7 +271,123 @@ def shard_real(arg):
     return sh
 
 
+def openssl_case(name, d):
+    """third, external oracle: the openssl binary parses what the library
+    wrote (same scalar, point, curve) and the library loads what openssl
+    re-wrote (equal keys).  Skipped when no openssl is installed."""
+    import re
+    import shutil
+    import subprocess
+    import tempfile
+    exe = shutil.which("openssl")
+    if exe is None:
+        return "n/a"
+    from ecdsa import curves as cv
+    from ecdsa.keys import SigningKey, VerifyingKey
+    c = getattr(cv, name)
+    p, a, b, n, h, G = catalog.real_params(c)
+    Q = rc.ladder_mul(d, G, p, a)
+    plen = (p.bit_length() + 7) // 8
+    sk = SigningKey.from_secret_exponent(d, c, hashfunc=hashlib.sha1)
+    wd = tempfile.mkdtemp(prefix="c09ssl_", dir="/var/tmp")
+
+    def run(args):
+        return subprocess.run([exe] + args, cwd=wd, stdout=subprocess.PIPE,
+                              stderr=subprocess.PIPE, timeout=60)
+
+    def hexfield(text, label):
+        m = re.search(label + r":\s*\n((?:\s+[0-9a-f:]+\n)+)", text)
+        if not m:
+            return None
+        return int(re.sub(r"[^0-9a-f]", "", m.group(1)), 16)
+
+    try:
+        for fmt in ("ssleay", "pkcs8"):
+            for enc in ("uncompressed", "compressed"):
+                with open(wd + "/sk.pem", "wb") as f:
+                    f.write(sk.to_pem(enc, fmt))
+                r = run(["pkey", "-in", "sk.pem", "-noout", "-text"])
+                if r.returncode:
+                    return ("openssl-rejects:%s:%s" % (fmt, enc), "parsed",
+                            r.stderr.decode()[-200:])
+                text = r.stdout.decode()
+                priv = hexfield(text, "priv")
+                pub = hexfield(text, "pub")
+                want_pub = int.from_bytes(
+                    point_bytes(Q[0], Q[1], plen, enc), "big")
+                if priv != d or pub != want_pub:
+                    return ("openssl-reads-other-values:%s:%s" % (fmt, enc),
+                            [hex(d), hex(want_pub)], [hex(priv or 0),
+                                                      hex(pub or 0)])
+                if c.openssl_name and c.openssl_name not in text:
+                    return ("openssl-reads-other-curve:%s" % fmt,
+                            c.openssl_name, text[-160:])
+                # openssl re-writes the key (traditional and PKCS#8 PEM, DER)
+                for args, loader in (
+                        (["pkey", "-in", "sk.pem", "-out", "o.pem"],
+                         lambda: SigningKey.from_pem(open(wd + "/o.pem").read(),
+                                                     hashfunc=hashlib.sha1)),
+                        (["pkey", "-in", "sk.pem", "-traditional", "-out",
+                          "t.pem"],
+                         lambda: SigningKey.from_pem(open(wd + "/t.pem").read(),
+                                                     hashfunc=hashlib.sha1)),
+                        (["pkey", "-in", "sk.pem", "-outform", "DER", "-out",
+                          "o.der"],
+                         lambda: SigningKey.from_der(
+                             open(wd + "/o.der", "rb").read(),
+                             hashfunc=hashlib.sha1))):
+                    r = run(args)
+                    if r.returncode:
+                        return ("openssl-rewrite-fails", "ok",
+                                r.stderr.decode()[-200:])
+                    if not (loader() == sk):
+                        return ("openssl-written-key-loads-differently:" +
+                                args[-1], "equal key", "!=")
+        with open(wd + "/sk.pem", "wb") as f:
+            f.write(sk.to_pem())
+        r = run(["pkey", "-in", "sk.pem", "-pubout", "-out", "p.pem"])
+        if r.returncode:
+            return ("openssl-pubout-fails", "ok", r.stderr.decode()[-200:])
+        vk = VerifyingKey.from_pem(open(wd + "/p.pem").read(),
+                                   hashfunc=hashlib.sha1)
+        if not (vk == sk.verifying_key) or \
+                open(wd + "/p.pem", "rb").read() != sk.verifying_key.to_pem():
+            return ("openssl-pubkey-differs", "same SubjectPublicKeyInfo PEM",
+                    "differs")
+    except Exception as e:
+        return ("openssl-case-raises", "round trip",
+                "%s: %s" % (type(e).__name__, e))
+    finally:
+        shutil.rmtree(wd, ignore_errors=True)
+    return None
+
+
+def shard_openssl(arg):
+    sh = Shard()
+    for name in arg:
+        for d in real_scalars(name)[:4]:
+            sh.n += 1
+            bad = openssl_case(name, d)
+            if bad == "n/a":
+                sh.hist["openssl-not-installed"] += 1
+                continue
+            sh.nt += 1
+            sh.hist["openssl-cross-checked"] += 1
+            if bad:
+                sh.hist["fail:" + bad[0]] += 1
+                sh.violation("openssl", bad[0], dict(curve=name, d=d),
+                             bad[1], bad[2])
+        sh.sample(dict(curve=name, oracle="openssl pkey -text / re-encode",
+                       formats=["ssleay", "pkcs8"]), cap=1)
+    return sh
+
+
 def replay(check, case):
+    if check == "openssl":
+        bad = openssl_case(case["curve"], case["d"])
+        if bad in (None, "n/a"):
+            return None
+        return dict(cls=bad[0], expected=bad[1], observed=bad[2])
     if check == "toy":
         bad = toy_case(case["rec"], case["d"])
     elif check == "real":
@@ -317,6 +433,7 @@ def main(ctx):
             jobs.append((shard_toy, "toy-all-d", (t.rec(), ch)))
     for ch in common.chunks(catalog.REAL_NAMES, ctx.jobs):
         jobs.append((shard_real, "real", ch))
+        jobs.append((shard_openssl, "openssl-third-oracle", ch))
     rep = common.run_shards(ctx, jobs)
     rep.coverage["toy_curves"] = cover
     rep.rule = (
